@@ -399,12 +399,12 @@ theorem c11_eraseIt (hc : CfgOK c) (hw : WFW c cu w) (p : ItArg)
     rw [erase_abs hc hw.1 k 1 (by omega) h1]
     exact w1_take_cap_of_le (by simp only [List.length_append, List.length_take, List.length_drop]; omega)
 
-theorem c11_eraseItIt (hc : CfgOK c) (hw : WFW c cu w) (p q : ItArg)
-    (hd : inDomain (npos c) w (.eraseItIt p q) = true) : C11Holds c cu w (.eraseItIt p q) := by
+theorem c11_eraseItIt_range (hc : CfgOK c) (hw : WFW c cu w) (p q : ItArg)
+    (hd : itRange (abs w.s) p q = true) : C11Holds c cu w (.eraseItIt p q) := by
   have hl := abs_length hw.1
   have h2 := hw.1.2.1
   have hW := hc.hW
-  simp only [inDomain, itRange, Bool.and_eq_true, decide_eq_true_eq] at hd
+  simp only [itRange, Bool.and_eq_true, decide_eq_true_eq] at hd
   obtain ⟨k, rfl, hk, hp⟩ := w1_derefable_inv hd.1
   have hq := hd.2
   rw [hp] at hq
@@ -449,5 +449,59 @@ theorem c11_eraseItIt (hc : CfgOK c) (hw : WFW c cu w) (p q : ItArg)
         rw [if_pos (by omega), a]
     rw [hcount]
     exact w1_take_cap_of_le (by simp only [List.length_append, List.length_take, List.length_drop]; omega)
+
+/-- the iterator value of an argument that is not dereferenceable is `end()` -/
+theorem w1_not_derefable {s : FStr} (hs : WF c s) {p : ItArg} (h : derefable (abs s) p = false) :
+    itOf c s p = itEnd c ∧ itPos (abs s) p = s.len := by
+  have hl := abs_length hs
+  cases p with
+  | fin => exact ⟨rfl, hl⟩
+  | pos k =>
+    simp only [derefable, decide_eq_false_iff_not, hl] at h
+    refine ⟨?_, ?_⟩
+    · show itAt c s k = itEnd c
+      unfold itAt; rw [if_pos (by omega)]
+    · simp only [itPos, hl]; exact Nat.min_eq_right (by omega)
+
+/-- `erase( first, last)` for every range `std::string` accepts (`first ≤ last`), the empty ranges `[it, it)` and
+    `[end(), end())` included: there nothing happens on either side. -/
+theorem c11_eraseItIt (hc : CfgOK c) (hw : WFW c cu w) (p q : ItArg)
+    (hd : inDomain (npos c) w (.eraseItIt p q) = true) : C11Holds c cu w (.eraseItIt p q) := by
+  by_cases hr : itRange (abs w.s) p q = true
+  · exact c11_eraseItIt_range hc hw p q hr
+  · have hl := abs_length hw.1
+    simp only [inDomain, decide_eq_true_eq] at hd
+    have hsame : (abs w.s).take (itPos (abs w.s) p) ++
+        (abs w.s).drop (itPos (abs w.s) p + (itPos (abs w.s) q - itPos (abs w.s) p)) = abs w.s ∧
+        (itOf c w.s p = itEnd c ∨ itOf c w.s p = itOf c w.s q) := by
+      by_cases hdp : derefable (abs w.s) p = true
+      · have hlt : ¬ itPos (abs w.s) p < itPos (abs w.s) q := by
+          intro hh; apply hr; simp only [itRange, Bool.and_eq_true, decide_eq_true_eq]; exact ⟨hdp, hh⟩
+        have he : itPos (abs w.s) q = itPos (abs w.s) p := by omega
+        obtain ⟨k, rfl, hk, hp⟩ := w1_derefable_inv hdp
+        refine ⟨by rw [he, Nat.sub_self, Nat.add_zero, List.take_append_drop], Or.inr ?_⟩
+        rw [hp] at he
+        cases q with
+        | fin => simp only [itPos] at he; omega
+        | pos j =>
+          simp only [itPos] at he
+          have : j = k := by
+            rcases Nat.le_total j (abs w.s).length with h | h
+            · rw [Nat.min_eq_left h] at he; exact he
+            · rw [Nat.min_eq_right h] at he; omega
+          rw [this]
+      · have hdp' : derefable (abs w.s) p = false := by cases h : derefable (abs w.s) p <;> simp_all
+        obtain ⟨e1, e2⟩ := w1_not_derefable hw.1 hdp'
+        refine ⟨?_, Or.inl e1⟩
+        rw [e2, List.take_of_length_le (by omega), List.drop_of_length_le (by omega), List.append_nil]
+    refine w1_of_mutIt rfl (by simp [CmpOut]) (abs w.s) ?_ (fun r h => ?_)
+    · simp only [spec, thenS, StdString.erase]
+      rw [if_neg (by omega), if_neg (by have := Nat.min_le_right 0 0; cases p <;> simp only [itPos] <;> omega), bindR_ok,
+        hsame.1]; rfl
+    · change eraseItIt c w.s (itOf c w.s p) (itOf c w.s q) = .ok r at h
+      unfold eraseItIt at h
+      rw [if_pos hsame.2] at h
+      cases h
+      exact (abs_take_cap hw.1).symm
 
 end CelmaVerif.FixedString
